@@ -269,6 +269,14 @@ func SafeNew(ctx *linter.Context, info *linter.CheckerInfo) (c *linter.Checker, 
 }
 
 // AnalysePanic extracts the frames needed to attribute a panic.
+// repoRoot: where the analysed repository lives (/repo; a scratch copy in mutation trials).
+func repoRoot() string {
+	if r := os.Getenv("VERIF_REPO"); r != "" {
+		return strings.TrimRight(r, "/")
+	}
+	return "/repo"
+}
+
 func AnalysePanic(r interface{}, stack string) *PanicInfo {
 	pi := &PanicInfo{Value: fmt.Sprint(r), Stack: stack}
 	lines := strings.Split(stack, "\n")
@@ -301,7 +309,7 @@ func AnalysePanic(r interface{}, stack string) *PanicInfo {
 		if pi.DepFrame == "" && !strings.Contains(file, "/verif/") {
 			pi.DepFrame = name
 		}
-		if strings.HasPrefix(file, "/repo/") {
+		if strings.HasPrefix(file, repoRoot()+"/") {
 			if strings.Contains(name, "core.SafeCheck") {
 				continue
 			}
